@@ -130,7 +130,7 @@ func RunPool(items []WorkItem, nworkers int, perItem time.Duration) []WorkResult
 				stdout, _ := cmd.StdoutPipe()
 				var stderrBuf limitedBuf
 				cmd.Stderr = &stderrBuf
-				cmd.SysProcAttr = &syscall.SysProcAttr{Setpgid: true}
+				cmd.SysProcAttr = &syscall.SysProcAttr{Setpgid: true, Pdeathsig: syscall.SIGKILL}
 				if err := cmd.Start(); err != nil {
 					mu.Lock()
 					results[first] = WorkResult{Idx: first, Crash: "start: " + err.Error()}
